@@ -3,6 +3,8 @@
 
 pub mod api;
 pub mod framebuf;
+pub mod hbe2e;
+pub mod heartbeat;
 pub mod hs;
 pub mod machine;
 pub mod slots;
@@ -19,6 +21,8 @@ pub fn make(name: &str) -> Option<Box<dyn Engine>> {
     match name {
         "api" => Some(Box::new(api::ApiEngine::default())),
         "framebuf" => Some(Box::new(framebuf::FrameBufEngine::default())),
+        "hbe2e" => Some(Box::new(hbe2e::HbE2e::default())),
+        "heartbeat" => Some(Box::new(heartbeat::HeartbeatEngine::default())),
         "hs" => Some(Box::new(hs::HsEngine::default())),
         "machine" => Some(Box::new(machine::MachineEngine::default())),
         "parsecheck" => Some(Box::new(framebuf::ParseCheckEngine::default())),
